@@ -243,6 +243,11 @@ def mutation_guards(cx):
                 en = strip_casts(dict(x[2])["end"])
         ok = en is not None and en[0] == "bin" and en[1] == "Sub" and en[2][0] == "param" and is_f(en[3], "Entry.index")
         cx.check(ok, cx.site_key(c, "compact:to"), "compact drains ..(compact_index - first entry index) (found %s)" % (show(en) if en else None), c)
+    # the snapshot point (index, term, conf state of the last applied snapshot) changes only by applying a snapshot:
+    # compaction drops entries, it does not invent a boundary term
+    for s_, fk, pl in [x for k in cx.facts.fns if cx.facts.fns[k].crate == "raft" and (cx.facts.fns[k].impl_adt or "").endswith("MemStorageCore") for x in cx.prog.direct_writes(k)]:
+        if fk.startswith("MemStorageCore.snapshot_metadata") or (fk.startswith("SnapshotMetadata.") and any(isinstance(p_, dict) and p_.get("n") == "snapshot_metadata" for p_ in pl.get("p", []))):
+            cx.check(s_.fn.name in ("apply_snapshot",), cx.site_key(s_, "write:snapshot_metadata"), "MemStorageCore.snapshot_metadata is written only by apply_snapshot (found in %s)" % fn_name(s_.fn), s_)
     # set_hardstate(hs) stores hs -- all of it, always (a hard state that differs only in the vote is still a promise)
     sh = cx.fn("MemStorageCore::set_hardstate")
     gsh = cx.pg(sh)
@@ -314,6 +319,8 @@ def snapshot(cx):
             v = cx.prog.A(f).expr_rvalue(s.data["stmt"]["rv"], s.at)
             if v[0] == "param":
                 def behind(l, v=v):
-                    return l[0] == "is" and l[2] is True and l[1][0] == "bin" and l[1][1] == "Lt" and is_f(l[1][2], "SnapshotMetadata.index") and l[1][3] == v
+                    # the index compared is that of the snapshot just built (not the stored snapshot point)
+                    return l[0] == "is" and l[2] is True and l[1][0] == "bin" and l[1][1] == "Lt" and is_f(l[1][2], "SnapshotMetadata.index") and l[1][3] == v and \
+                        not any(x[0] == "field" and x[2] == "MemStorageCore.snapshot_metadata" for x in walk(l[1][2]))
                 ok = require(cx, s, cx.site_key(s, "raise"), "the snapshot index is raised to request_index only if it is below it", behind, kill=False)
     cx.check(ok, "request_index", "Storage::snapshot never returns an index below the requested one")
